@@ -1,4 +1,5 @@
 import Gv.Model.MutFacts
+import Gv.Model.MutFactsT
 import Gv.Model.Heap
 /-!
 # C19 — queries never modify their input; copies share nothing with the original
@@ -49,6 +50,69 @@ theorem copies_own_data : ∀ c ∈ copyOps, ownsData fns c.1 c.2 = true := by d
 analysis does distinguish the two situations -/
 theorem sampling_shares : sharesData fns "seqbag" "sampleSeqBag" = true := by
   decide +kernel
+
+/-! ## cross-check over the TYPE-CHECKED mutation facts (tools/mutscan, `Gv.Gen.MutFactsT`)
+
+The same statements over facts computed with go/types: call edges are the static callees (an interface call reaches
+every implementation in the analysed packages), "fresh" is decided from the allocation site, a write is classified
+by the type of the written location, calls leaving the analysed packages are listed and only the reviewed read-only
+ones are accepted.  The analysis is flow-insensitive (unification of everything a variable is ever assigned), which is
+why `phaser.Phase` (re-assigns its parameter `orfs` to a new bag before adding to it) and `seqbag.LongestORF`
+(`bestseq` is assigned both a row of the input and the reversed clone) are NOT in this list: they stay with the
+syntactic facts above and the run-time check. -/
+
+/-- queries over the type-checked facts: `("", n)` = every function / method named `n` of the analysed packages
+(all of goalign except `cmd`), `(r, n)` = method `n` of receiver type `r` -/
+def queriesT : List (String × String) :=
+  (["WriteAlignment", "WriteSequences", "String",
+    "CharStats", "UniqueCharacters", "CharStatsSeq", "CharStatsSite", "MaxCharStats", "Consensus", "Entropy",
+    "NbVariableSites", "InformativeSites", "AvgAllelesPerSite", "Pssm", "CountDifferences",
+    "NumGapsUniquePerSequence", "NumMutationsUniquePerSequence", "Frameshifts", "Stops", "SiteConservation",
+    "NumMutationsComparedToReferenceSequence", "ListMutationsComparedToReferenceSequence",
+    "RefCoordinates", "RefSites", "InverseCoordinates", "InversePositions",
+    "DistMatrix", "MLDist", "JC69Dist",
+    "SubAlign", "SelectSites", "Transpose", "BuildBootstrap", "Clone", "CloneSeqBag", "Split", "Unalign", "CodonAlign",
+    "Identical", "Iterate", "IterateChar", "IterateAll", "GetSequence", "GetSequenceChar", "GetSequenceById",
+    "GetSequenceByName", "Sequences", "DetectAlphabet", "NbSequences", "Length", "MaxNameLength",
+    -- interface methods documented as queries that the name-based list above does not contain
+    "Alphabet", "AlphabetStr", "AlphabetCharacters", "AlphabetCharToIndex", "CharAt", "Comment", "Name",
+    "GetSequenceCharById", "GetSequenceIdByName", "GetSequenceNameById", "NumGaps", "NumGapsFromEnd", "NumGapsFromStart",
+    "NumGapsOpenning", "SameSequence", "Sequence", "SequenceChar", "SequenceByName", "SequencesChan", "RandSubAlign",
+    "NewPwAligner", "MaxScore", "NbMatches", "NbMisMatches", "NbGaps", "Seq1Ali", "Seq2Ali", "AlignmentStr"].map fun n => ("", n)) ++
+  [("seq", "LongestORF")]
+
+/-- the fact table is indexed by id (what the closure relies on) and no function stores a reference into a
+package-level variable (so memory reachable from package-level tables is never an input's memory) -/
+theorem typed_facts_wellformed :
+    Gv.Model.MutT.wellFormed Gv.Gen.MutFactsT.fns = true ∧ Gv.Model.MutT.noGlobalStores Gv.Gen.MutFactsT.fns = true := by
+  decide +kernel
+
+/-- **No listed query reaches, through memory shared with any of its inputs, a statement that writes a sequence-data
+location, nor an external function outside the reviewed read-only list** (type-checked call graph, all
+implementations of interface calls, allocation-site freshness). -/
+theorem queries_pure_typed : ∀ q ∈ queriesT, Gv.Model.MutT.pure Gv.Gen.MutFactsT.fns q = true := by decide +kernel
+
+/-- **The results of the copy-producing operations share no memory with any input**: every value reachable from
+what they return was allocated inside (make / composite literal / append to a fresh slice / result of a function
+whose results are fresh). -/
+theorem copies_own_data_typed : ∀ c ∈ copyOps, Gv.Model.MutT.ownsData Gv.Gen.MutFactsT.fns c.1 c.2 = true := by
+  decide +kernel
+
+/-- the sampling operations, documented as sharing, are seen as sharing by the type-checked facts as well -/
+theorem sampling_shares_typed :
+    Gv.Model.MutT.sharesData Gv.Gen.MutFactsT.fns "seqbag" "sampleSeqBag" = true ∧
+    Gv.Model.MutT.sharesData Gv.Gen.MutFactsT.fns "align" "Sample" = true := by decide +kernel
+
+/-- **The pairwise aligner never touches its caller's sequences**: the constructor writes nothing through its
+arguments and returns an object that shares no memory with them (it clones both sequences - decided from the
+allocation sites), and every method of `pwaligner` (`Alignment` included) writes sequence data only through its
+receiver, i.e. only inside that private object. -/
+theorem pwaligner_isolated_typed :
+    Gv.Model.MutT.pure Gv.Gen.MutFactsT.fns ("", "NewPwAligner") = true ∧
+    Gv.Model.MutT.ownsData Gv.Gen.MutFactsT.fns "" "NewPwAligner" = true ∧
+    (Gv.Gen.MutFactsT.fns.any fun f => f.recv == "pwaligner" && f.name == "Alignment") = true ∧
+    ((Gv.Gen.MutFactsT.fns.filter (·.recv == "pwaligner")).all fun f =>
+      Gv.Model.MutT.pureInArgs Gv.Gen.MutFactsT.fns ("pwaligner", f.name)) = true := by decide +kernel
 
 /-! ## ownership model -/
 
